@@ -137,4 +137,133 @@ Eval(q, db) ==
     LET P == Passing(q, db)
         S == IF q.lim = 0 THEN P ELSE FirstN(P, db, q.fwd, q.lim)
     IN  {[id |-> i, lbls |-> PipeOf(q, db, i).lbls] : i \in S}
+
+(*------------------------------------------- metric queries (C08) -------------------------------------------*)
+(* q.mq = [fn, range, step, unit, ugrp, uglbls, agg, grp, glbls, cmpl, cmpa, topfn, topk]                       *)
+(*   range, step and the window q.from, q.to are in ticks; one tick is `unit` seconds (only rates and the 15 s  *)
+(*   shortcut of the mechanism care).  Entries carry len (abstract byte length of the line) and, when the       *)
+(*   pipeline ends with an unwrap stage, the unwrapped value NumVal[labels[unwrap label]].                      *)
+(*   A value is a rational [num, den] in abstract units (the concretiser applies the scale of counts / bytes /  *)
+(*   unwrapped numbers and the seconds per tick); cmpl / cmpa = [op, k4]: compare with k4/4 (per second for a   *)
+(*   rate), op = "" when there is no comparison.                                                                *)
+(*                                                                                                              *)
+(* Definition (the property's words): bucket the matching entries into windows of the range duration            *)
+(* (Bucket(t) = intDiv(t, range) * range), apply the range function, then the vector aggregation with its       *)
+(* by / without grouping, the comparison, topk / bottomk.  The entries that may contribute are those of the     *)
+(* query window widened to whole range buckets.  The output has a point at start + i*step (i = 0 .. (end -      *)
+(* start) div step) with the value of the range bucket that contains that instant.                             *)
+Bucket(t, r) == (t \div r) * r
+WidenedFrom(q) == Bucket(q.from, q.mq.range)
+WidenedTo(q)   == Bucket(q.to, q.mq.range) + q.mq.range
+
+IsRateFn(fn)   == fn \in {"rate", "bytes_rate"}
+IsUnwrapFn(fn) == fn \in {"sum_over_time", "avg_over_time", "min_over_time", "max_over_time", "first_over_time",
+                          "last_over_time", "rate_unwrap"}
+UnwrapLabel(q) == q.p[Len(q.p)].lbl
+
+(* rationals with positive denominators *)
+RLess(a, b)  == a.num * b.den < b.num * a.den
+REq(a, b)    == a.num * b.den = b.num * a.den
+RAdd(a, b)   == IF a.den = b.den THEN [num |-> a.num + b.num, den |-> a.den]
+                ELSE [num |-> a.num * b.den + b.num * a.den, den |-> a.den * b.den]
+RCmp(op, a, b) == CASE op = ">"  -> RLess(b, a)
+                    [] op = ">=" -> ~RLess(a, b)
+                    [] op = "<"  -> RLess(a, b)
+                    [] op = "<=" -> ~RLess(b, a)
+                    [] op = "==" -> REq(a, b)
+                    [] op = "!=" -> ~REq(a, b)
+RECURSIVE RSum(_)
+RSum(S) == IF S = {} THEN [num |-> 0, den |-> 1]      \* S: set of [k, v] records (k makes equal values distinct)
+           ELSE LET x == CHOOSE x \in S : TRUE IN RAdd(x.v, RSum(S \ {x}))
+RMin(S) == (CHOOSE x \in S : \A y \in S : ~RLess(y.v, x.v)).v
+RMax(S) == (CHOOSE x \in S : \A y \in S : ~RLess(x.v, y.v)).v
+
+RECURSIVE SumOver(_, _)
+SumOver(S, f) == IF S = {} THEN 0 ELSE LET x == CHOOSE x \in S : TRUE IN f[x] + SumOver(S \ {x}, f)
+
+(* the entries that contribute, with their labels after the pipeline *)
+MLabels(q, db, i) == RunPipe(q.p, 1, db[i], StreamLbls(db[i].s))
+MCandidates(q, db) ==
+    {i \in DOMAIN db : /\ db[i].ty = "log" /\ WidenedFrom(q) <= db[i].t /\ db[i].t < WidenedTo(q)
+                       /\ StreamSelected(q.m, db[i].s) /\ MLabels(q, db, i).ok
+                       /\ (IsUnwrapFn(q.mq.fn) => IsNum(MLabels(q, db, i).lbls[UnwrapLabel(q)]))}
+Group(kind, names, lbls) ==
+    CASE kind = "by"      -> [l \in LabelNames |-> IF l \in names THEN lbls[l] ELSE ""]
+      [] kind = "without" -> [l \in LabelNames |-> IF l \in names THEN "" ELSE lbls[l]]
+      [] OTHER            -> lbls
+RangeLabels(q, db, i) == Group(q.mq.ugrp, q.mq.uglbls, MLabels(q, db, i).lbls)
+
+(* the range function over the entries E (non-empty) of one series and one bucket *)
+RangeValue(q, db, E) ==
+    LET fn  == q.mq.fn
+        uv  == [i \in E |-> IF IsUnwrapFn(fn) THEN NumVal[MLabels(q, db, i).lbls[UnwrapLabel(q)]] ELSE 0]
+        ln  == [i \in E |-> db[i].len]
+        n   == Cardinality(E)
+        fst == CHOOSE i \in E : \A j \in E : db[i].t < db[j].t \/ (db[i].t = db[j].t /\ i <= j)
+        lst == CHOOSE i \in E : \A j \in E : db[i].t > db[j].t \/ (db[i].t = db[j].t /\ i >= j)
+    IN  CASE fn = "rate"            -> [num |-> n, den |-> q.mq.range]
+          [] fn = "count_over_time" -> [num |-> n, den |-> 1]
+          [] fn = "bytes_rate"      -> [num |-> SumOver(E, ln), den |-> q.mq.range]
+          [] fn = "bytes_over_time" -> [num |-> SumOver(E, ln), den |-> 1]
+          [] fn = "sum_over_time"   -> [num |-> SumOver(E, uv), den |-> 1]
+          [] fn = "avg_over_time"   -> [num |-> SumOver(E, uv), den |-> n]
+          [] fn = "min_over_time"   -> [num |-> CHOOSE x \in {uv[i] : i \in E} : \A y \in {uv[i] : i \in E} : x <= y, den |-> 1]
+          [] fn = "max_over_time"   -> [num |-> CHOOSE x \in {uv[i] : i \in E} : \A y \in {uv[i] : i \in E} : x >= y, den |-> 1]
+          [] fn = "first_over_time" -> [num |-> uv[fst], den |-> 1]
+          [] fn = "last_over_time"  -> [num |-> uv[lst], den |-> 1]
+          [] fn = "rate_unwrap"     -> [num |-> SumOver(E, uv), den |-> q.mq.range]
+
+Threshold(q, cmp) == [num |-> cmp.k4, den |-> 4 * (IF IsRateFn(q.mq.fn) \/ q.mq.fn = "rate_unwrap" THEN q.mq.range ELSE 1)]
+CmpHolds(q, cmp, v) == cmp.op = "" \/ RCmp(cmp.op, v, Threshold(q, cmp))
+
+(* rows [lbls, b, v] of the range function *)
+RangeRows(q, db) ==
+    LET C == MCandidates(q, db)
+        keys == {<<RangeLabels(q, db, i), Bucket(db[i].t, q.mq.range)>> : i \in C}
+    IN  {r \in {[lbls |-> k[1], b |-> k[2],
+                 v |-> RangeValue(q, db, {i \in C : RangeLabels(q, db, i) = k[1] /\ Bucket(db[i].t, q.mq.range) = k[2]})] : k \in keys} :
+            CmpHolds(q, q.mq.cmpl, r.v)}
+
+AggValue(agg, S) ==      \* S: non-empty set of [k, v]
+    CASE agg = "sum"   -> RSum(S)
+      [] agg = "min"   -> RMin(S)
+      [] agg = "max"   -> RMax(S)
+      [] agg = "avg"   -> LET t == RSum(S) IN [num |-> t.num, den |-> t.den * Cardinality(S)]
+      [] agg = "count" -> [num |-> Cardinality(S), den |-> 1]
+
+AggRows(q, db) ==
+    LET R == RangeRows(q, db)
+    IN  IF q.mq.agg = "" THEN R
+        ELSE LET G(l) == IF q.mq.grp = "" THEN NoLabels ELSE Group(q.mq.grp, q.mq.glbls, l)
+                 keys == {<<G(r.lbls), r.b>> : r \in R}
+             IN  {a \in {[lbls |-> k[1], b |-> k[2],
+                          v |-> AggValue(q.mq.agg, {[k |-> r.lbls, v |-> r.v] : r \in {rr \in R : G(rr.lbls) = k[1] /\ rr.b = k[2]}})] : k \in keys} :
+                     CmpHolds(q, q.mq.cmpa, a.v)}
+
+(* topk / bottomk per bucket.  sure: the row is among the k best whatever the order of equal values; maybe: it   *)
+(* ties with the k-th value (the definition leaves the choice open)                                             *)
+Better(q, x, y) == IF q.mq.topfn = "topk" THEN RLess(y.v, x.v) ELSE RLess(x.v, y.v)
+TopRows(q, db) ==
+    LET A == AggRows(q, db)
+    IN  IF q.mq.topfn = "" THEN {[lbls |-> r.lbls, b |-> r.b, v |-> r.v, opt |-> FALSE] : r \in A}
+        ELSE LET same(r) == {x \in A : x.b = r.b}
+                 nbetter(r) == Cardinality({x \in same(r) : Better(q, x, r)})
+                 nnotworse(r) == Cardinality({x \in same(r) : ~Better(q, r, x)})   \* better or equal, including r
+             IN  {[lbls |-> r.lbls, b |-> r.b, v |-> r.v, opt |-> nnotworse(r) > q.mq.topk] :
+                    r \in {rr \in A : nbetter(rr) < q.mq.topk}}
+
+(* the output points: instant T reports the bucket containing T.  When that bucket is empty and T is the right  *)
+(* edge of a non-empty bucket the point may carry that bucket's value (the range (T-range, T] convention): opt.  *)
+Instants(q) == {q.from + i * q.mq.step : i \in 0..((q.to - q.from) \div q.mq.step)}
+EvalMetric(q, db) ==
+    LET T == TopRows(q, db)
+        series == {r.lbls : r \in T}
+        row(l, b) == {r \in T : r.lbls = l /\ r.b = b}
+        pts(l) == {[t |-> t, v |-> (CHOOSE r \in row(l, Bucket(t, q.mq.range)) : TRUE).v,
+                    opt |-> (CHOOSE r \in row(l, Bucket(t, q.mq.range)) : TRUE).opt] :
+                        t \in {tt \in Instants(q) : row(l, Bucket(tt, q.mq.range)) # {}}}
+                  \cup {[t |-> t, v |-> (CHOOSE r \in row(l, t - q.mq.range) : TRUE).v, opt |-> TRUE] :
+                        t \in {tt \in Instants(q) : /\ row(l, Bucket(tt, q.mq.range)) = {} /\ tt % q.mq.range = 0
+                                                    /\ row(l, tt - q.mq.range) # {}}}
+    IN  {s \in {[lbls |-> l, pts |-> pts(l)] : l \in series} : s.pts # {}}
 =============================================================================
